@@ -1,6 +1,7 @@
 package main
 
 import (
+	"encoding/json"
 	"fmt"
 	"sort"
 	"strings"
@@ -127,6 +128,17 @@ func isShortAce9876(cards []string) bool {
 	return len(have) == 5 && have[14] && have[9] && have[8] && have[7] && have[6]
 }
 
+// specTable: the order of the categories the PROPERTY states for the variant (C03: the poker order; flush above full house in short
+// deck), written out here — not read from the package's tables, which are the thing under test (a defect that overwrites the shipped
+// table in place would otherwise be judged by its own result).  Category numbers: 0 high card, 1 pair, 2 two pair, 3 three of a kind,
+// 4 straight, 5 flush, 6 full house, 7 four of a kind, 8 straight flush.
+func specTable(n string) []combination.Combination {
+	if n == "short" {
+		return []combination.Combination{0, 1, 2, 3, 4, 6, 5, 7, 8}
+	}
+	return []combination.Combination{0, 1, 2, 3, 4, 5, 6, 7, 8}
+}
+
 func tableByName(n string) []combination.Combination {
 	if n == "short" {
 		return combination.CombinationPowerShortDeck
@@ -169,7 +181,7 @@ func (e *evRunner) exec(table string, cards []string) {
 	}
 	cur := &evPrev{cards: append([]string{}, cards...), key: k, score: ps.Score}
 	cmp := func(p *evPrev) {
-		want := specCompare(tableByName(table), p.key, cur.key)
+		want := specCompare(specTable(table), p.key, cur.key)
 		got := 0
 		if p.score < cur.score {
 			got = -1
@@ -233,6 +245,10 @@ func runEv(dir string, seed uint64, tier string, scale int) {
 	i := 0
 	forEach5(std, func(h []string) {
 		i++
+		if i%50000 == 1 {
+			evNoise(i / 50000) // the rest of the package at work in the same process: games of both variants built, started, saved and restored
+			o.Count("ev.noise_rounds")
+		}
 		e.exec("std", permute(e.rng, h))
 		if tier == "thorough" || i%7 == 0 {
 			e.exec("short", permute(e.rng, h))
@@ -246,6 +262,45 @@ func runEv(dir string, seed uint64, tier string, scale int) {
 	})
 	o.Sample("ev std SA SK SQ SJ ST")
 	o.Close(dir, "ev", seed)
+}
+
+// evNoise: while the evaluator is being judged, the package does what it does in a running service: games of both variants
+// are built from the shipped option constructors, started, their state saved (the engine's own GetStateJSON and encoding/json),
+// decoded and restored.  None of this may change how a five-card hand is ranked (the ranking tables and the rank map are
+// package-level values every game points at).
+func evNoise(k int) {
+	safely(func() error {
+		for _, mk := range []func() *pokerface.GameOptions{pokerface.NewShortDeckGameOptions, pokerface.NewStardardGameOptions} {
+			opts := mk()
+			if k%2 == 1 {
+				opts.Deck = pokerface.NewShortDeckCards()
+			} else if len(opts.Deck) == 0 {
+				opts.Deck = pokerface.NewStandardDeckCards()
+			}
+			opts.Players = []*pokerface.PlayerSetting{{Bankroll: 100, Positions: []string{"dealer", "sb"}}, {Bankroll: 100, Positions: []string{"bb"}}}
+			g := pokerface.NewPokerFace().NewGame(opts)
+			if g.Start() != nil {
+				continue
+			}
+			g.ReadyForAll()
+			g.PayBlinds()
+			g.ReadyForAll()
+			if b, err := g.GetStateJSON(); err == nil {
+				var st pokerface.GameState
+				if json.Unmarshal(b, &st) == nil {
+					g2 := pokerface.NewPokerFace().NewGameFromState(&st)
+					g2.Call()
+					g2.Check()
+					g2.Next()
+					_ = g2.GetState().AsObserver
+				}
+			}
+			if c := cloneJSON(g.GetState()); c != nil {
+				_ = g.LoadState(c)
+			}
+		}
+		return nil
+	})
 }
 
 // ---- best stream (C10) ----
@@ -304,7 +359,7 @@ func bestSpec(table string, required int, hole, board []string) (specKey, bool) 
 	if len(sels) == 0 {
 		return specKey{}, false
 	}
-	tbl := tableByName(table)
+	tbl := specTable(table) // the order the property states, not the package table under test
 	var best specKey
 	for i, s := range sels {
 		if table == "short" && isShortAce9876(s) {
@@ -327,7 +382,7 @@ func checkBest(o *Out, table string, required int, hole, board []string, ci *pok
 	if len(sels) == 0 {
 		return
 	}
-	tbl := tableByName(table)
+	tbl := specTable(table) // the order the property states, not the package table under test
 	var best specKey
 	hasShortAmbiguity := false
 	for i, s := range sels {
